@@ -1,7 +1,7 @@
 #!/bin/sh
 # regenerate coq/gen/Consts.v from /repo; rewrite only when the content changed; rebuild coq/gen
 set -e
-V=/verif
+V=$(cd "$(dirname "$0")/.." && pwd)
 mkdir -p $V/build
 exec 9>$V/build/.genconsts.lock
 flock 9
